@@ -60,6 +60,8 @@ type zz35Q struct {
 	peerWant  []int  // 0 none, 1 want-have, 2 want-block (strongest since the last cancel)
 	bcstWant  []bool // broadcast want-have since the last cancel
 	everBlock []bool // a want-block was requested at some point
+	elided    []bool // history class: a queued cancel was taken back by a later want
+	merged    []bool // history class: wanted through the peer list and the broadcast list at once
 
 	recv *bswl.Wantlist // the receiver: every sent message replayed onto an empty want-list
 	sent int
@@ -76,8 +78,24 @@ func (q *zz35Q) producerCall() {
 	q.producerCallOn(i, verifrt.NondetRange("call_kind", 0, 3))
 }
 
+// cancelQueued peeks at the queue (under its lock): is a cancel for c waiting to be sent?
+func (q *zz35Q) cancelQueued(c cid.Cid) bool {
+	q.mq.wllock.Lock()
+	defer q.mq.wllock.Unlock()
+	return q.mq.cancels.Has(c)
+}
+
 func (q *zz35Q) producerCallOn(i, kind int) {
 	c := q.cids[i]
+	// history classes, used only to give distinct failure modes distinct assertion ids
+	if kind != 3 && q.cancelQueued(c) {
+		q.elided[i] = true // a want takes back a cancel that was queued but not yet sent
+	}
+	defer func() {
+		if q.peerWant[i] > 0 && q.bcstWant[i] {
+			q.merged[i] = true // the CID is wanted through the peer list and the broadcast list at once
+		}
+	}()
 	switch kind {
 	case 0:
 		q.mq.AddWants([]cid.Cid{c}, nil)
@@ -185,6 +203,8 @@ func zz35NewQ(ncid int) *zz35Q {
 	q.peerWant = make([]int, ncid)
 	q.bcstWant = make([]bool, ncid)
 	q.everBlock = make([]bool, ncid)
+	q.elided = make([]bool, ncid)
+	q.merged = make([]bool, ncid)
 	q.supportsHave = verifrt.NondetBool("supports_have")
 	// message size limit: one entry, two entries, or practically unlimited
 	// (a symbolic choice: the engine only splits where a size comparison actually depends on it)
@@ -235,13 +255,21 @@ func (q *zz35Q) drainAndCheck() {
 				// the client's last word for this CID is a targeted want-have, which a peer without HAVE
 				// support is never sent: such a peer must not be left holding an older want either
 				verifrt.Assert("C35.T2.cancelled-want-left-active.want-have-to-peer-without-have-support", !has)
+			} else if q.elided[i] {
+				// histories in which a queued cancel was taken back by a new want before it was sent
+				verifrt.Assert("C35.T2.cancelled-want-left-active.after-elided-cancel", !has)
 			} else {
 				verifrt.Assert("C35.T2.cancelled-want-left-active", !has)
 			}
 			continue
 		}
 		n++
-		verifrt.Assert("C35.T2.current-want-unsent", has)
+		if q.merged[i] {
+			// histories in which the CID was wanted through the peer list and the broadcast list at once
+			verifrt.Assert("C35.T2.current-want-unsent.peer-and-broadcast-want", has)
+		} else {
+			verifrt.Assert("C35.T2.current-want-unsent", has)
+		}
 		if !has {
 			continue
 		}
@@ -249,7 +277,11 @@ func (q *zz35Q) drainAndCheck() {
 		if e.WantType == pb.Message_Wantlist_Block {
 			got = 2
 		}
-		verifrt.Assert("C35.T2.type-weaker-than-requested", got >= want)
+		if q.merged[i] {
+			verifrt.Assert("C35.T2.type-weaker-than-requested.peer-and-broadcast-want", got >= want)
+		} else {
+			verifrt.Assert("C35.T2.type-weaker-than-requested", got >= want)
+		}
 		verifrt.Assert("C35.T2.type-never-requested", got <= want || q.everBlock[i] || !q.supportsHave)
 	}
 	verifrt.Assert("C35.T2.receiver-has-only-current-wants", q.recv.Len() == n)
